@@ -7,8 +7,8 @@ MAGIC = 0x1b03
 T_READ, T_WRITE, T_RESPONSE, T_ERROR, T_EOF, T_CLOSE, T_PING, T_UPDATE, T_SYNC, T_UNMAP = range(10)
 KIND_TYPE = {"read": T_READ, "write": T_WRITE, "sync": T_SYNC, "ping": T_PING, "unmap": T_UNMAP}
 KIND_COQ = {"read": "KRead", "write": "KWrite", "sync": "KSync", "ping": "KPing", "unmap": "KUnmap"}
-RPC_FILES = ["Rpc/Model.v", "Rpc/CodecProofs.v", "Rpc/LoopProofs.v", "Rpc/Corr.v", "Rpc/Proofs.v"]
-IMPORTS = ["Rpc.Model", "Rpc.Corr"]
+RPC_FILES = ["Rpc/Model.v", "Rpc/CodecProofs.v", "Rpc/LoopProofs.v", "Rpc/Corr.v", "Rpc/Proofs.v", "Rpc/Server.v", "Rpc/ServerProofs.v"]
+IMPORTS = ["Rpc.Model", "Rpc.Corr", "Rpc.Server"]
 STALL_MS = 1000          # rw timeout of the process that runs the stall cases
 FAULT_MS = 4000          # rw timeout of the process that runs everything else (> the loop's fixed 2 s)
 LOOP_SLEEP_MS = 2000     # time.Sleep(2 * time.Second) in handleResponse
@@ -287,6 +287,236 @@ def loop_cases(rng, n_plain, n_fault, n_stall):
     return cases
 
 
+
+# --------------------------------------------------------------------------- server cases (rpc/server.go)
+
+HANDLED = (T_READ, T_WRITE, T_PING, T_SYNC, T_UNMAP)
+UNHANDLED = (T_RESPONSE, T_ERROR, T_EOF, T_CLOSE, T_UPDATE, 10, 77, 2 ** 32 - 1)
+TYPE_NAME = {T_READ: "read", T_WRITE: "write", T_PING: "ping", T_SYNC: "sync", T_UNMAP: "unmap"}
+MAX_READ = 9000          # read sizes the generator uses (a negative or huge Size makes the code panic / allocate)
+
+
+def spattern(off, token, k, n):
+    """harness/cmd/rpc spattern: the bytes the scripted processor puts into a read buffer"""
+    base = (off >> 9) * 31 + token * 17 + k * 13 + 1
+    return bytes((base + i * 7) & 0xff for i in range(n))
+
+
+def srv_frame(rng, ty=None, seq=None):
+    if ty is None:
+        x = rng.random()
+        ty = rng.choice(HANDLED) if x < 0.88 else rng.choice(UNHANDLED)
+    f = dict(magic=MAGIC, seq=rnd_u32(rng) if seq is None else seq, type=ty, off=rnd_i64(rng), size=0, data="")
+    if ty == T_READ:
+        x = rng.random()
+        f["size"] = rng.choice([0, 1, 4, 8, 16, 32, 64]) if x < 0.9 else rng.choice([255, 4096, 8065, 8066, 8067, MAX_READ])
+        if rng.random() < 0.1:
+            f["data"] = rnd_data(rng, False).hex()        # a payload on a read request is dropped
+    elif ty == T_WRITE:
+        d = rnd_data(rng, rng.random() < 0.08)
+        f["data"] = d.hex()
+        # the codec does not tie Size to the payload: the server must not trust it
+        f["size"] = len(d) if rng.random() < 0.7 else rnd_i64(rng)
+    elif ty == T_UNMAP:
+        f["size"] = rnd_i64(rng)
+    else:
+        if rng.random() < 0.25:
+            f["data"] = rnd_data(rng, False).hex()
+        f["size"] = 0 if rng.random() < 0.6 else rnd_i64(rng)
+    return f
+
+
+def srv_outcome(rng, f, force=None):
+    """what the processor is told to do for frame f"""
+    r = force or ("ok" if rng.random() < 0.6 else rng.choice(["eof", "err"]))
+    a = dict(r=r, count=0, text="", fill=-1, delay=0)
+    if f["type"] == T_READ:
+        if rng.random() < 0.15:
+            a["fill"] = rng.randint(0, f["size"] + 3)
+        if r == "eof":
+            a["count"] = rng.choice([0, f["size"], rng.randint(0, f["size"])])     # 0 <= count <= len(buf), else the code panics
+            if rng.random() < 0.7:
+                a["fill"] = a["count"]
+    elif f["type"] == T_WRITE and r == "eof":
+        a["count"] = rng.randint(0, len(f["data"]) // 2)
+    if r == "err":
+        a["text"] = rng.choice(["", "EOF", "scripted-error-%d" % rng.randint(0, 999),
+                                "input/output error", "x" * rng.choice([1, 30, 300])])
+    if rng.random() < 0.04:
+        a["delay"] = rng.randint(1, 15)
+    return a
+
+
+def srv_tail(rng, kind):
+    if kind == "none":
+        return b""
+    if kind == "half":
+        fr = msg_bytes(srv_frame(rng, rng.choice([T_WRITE, T_WRITE, T_READ, T_PING])))
+        return fr[:rng.randint(1, len(fr) - 1)]
+    if kind == "badmagic":
+        bad = srv_frame(rng)
+        bad["magic"] = rng.choice([0, 0x1b02, 0x031b, 0xffff, 0x1a03])
+        t = msg_bytes(bad)
+        if rng.random() < 0.5:
+            t += msg_bytes(srv_frame(rng, T_PING))      # a well-formed frame after it must not be answered
+        return t
+    g = bytes(rng.getrandbits(8) for _ in range(rng.randint(2, 60)))
+    if g[:2] == b"\x03\x1b":
+        g = b"\x00" + g[1:]
+    return g
+
+
+def seq_plan(rng, n):
+    x = rng.random()
+    if x < 0.3:
+        start = rng.choice([1, 0, 2 ** 32 - 1 - rng.randint(0, max(0, n - 1)), rng.getrandbits(32)])
+        return [(start + i) % 2 ** 32 for i in range(n)]          # a client's counter, wrapping included
+    if x < 0.5:
+        s = rnd_u32(rng)
+        return [s] * n                                            # all the same
+    if x < 0.7:
+        pool = [rnd_u32(rng) for _ in range(max(1, n // 3))]
+        return [rng.choice(pool) for _ in range(n)]               # duplicates
+    if x < 0.8:
+        return [(n - i) for i in range(n)]                        # descending
+    return [rnd_u32(rng) for _ in range(n)]
+
+
+def gen_serve(rng, n=None, mode=None, tail=None):
+    if n is None:
+        n = rng.choice([1, 2, 2, 3, 3, 4, 5, 6, 8, 12, 16, 24]) if rng.random() < 0.95 else rng.randint(25, 64)
+    seqs = seq_plan(rng, n)
+    reqs = [srv_frame(rng, seq=seqs[i]) for i in range(n)]
+    script = [srv_outcome(rng, f) for f in reqs]
+    mode = mode or rng.choice(["pipe", "pipe", "seq", "chunk"])
+    tk = tail or rng.choice(["none"] * 6 + ["half", "half", "badmagic", "garbage"])
+    c = dict(k="serve", reqs=reqs, oscript=script, mode=mode, token=rng.randint(0, 255), tailkind=tk, tail=srv_tail(rng, tk).hex())
+    if mode == "chunk":
+        c["chunk"] = rng.choice([1, 2, 3, 7, 29, 30, 31, 100])
+    return c
+
+
+def serve_enumerated():
+    """small scopes: every (type, outcome) alone, and every ordered pair of handled (type, outcome) pipelined
+    under one and the same Seq"""
+    import random as _r
+    rng = _r.Random(15)
+    out = []
+    kinds = []
+    for ty in HANDLED:
+        for r in ("ok", "eof", "err"):
+            kinds.append((ty, r))
+
+    def mk(ty, r, seq, variant=0):
+        f = dict(magic=MAGIC, seq=seq, type=ty, off=(3 + variant) * 4096, size=0, data="")
+        if ty == T_READ:
+            f["size"] = 8
+        elif ty == T_WRITE:
+            f.update(data="0a0b0c0d0e", size=5)
+        elif ty == T_UNMAP:
+            f["size"] = 4096
+        a = dict(r=r, count=0, text="", fill=-1, delay=0)
+        if r == "eof" and ty == T_READ:
+            a["count"] = (0, 3, 8)[variant % 3]
+            a["fill"] = a["count"]
+        if r == "eof" and ty == T_WRITE:
+            a["count"] = 2
+        if r == "err":
+            a["text"] = ("", "scripted-error-%d-%d" % (ty, variant))[variant % 2]
+        return f, a
+
+    for ty, r in kinds:
+        for variant in range(3 if r == "eof" else 2 if r == "err" else 1):
+            f, a = mk(ty, r, 41, variant)
+            out.append(dict(k="serve", reqs=[f], oscript=[a], mode="seq", token=9, tailkind="none", tail=""))
+    for ty in (T_RESPONSE, T_ERROR, T_EOF, T_CLOSE, T_UPDATE, 10, 2 ** 32 - 1):
+        f = dict(magic=MAGIC, seq=2 ** 32 - 1, type=ty, off=-4096, size=17, data="010203")
+        out.append(dict(k="serve", reqs=[f], oscript=[dict(r="ok", count=0, text="", fill=-1, delay=0)], mode="seq", token=9,
+                        tailkind="none", tail=""))
+    for i, (t1, r1) in enumerate(kinds):
+        for j, (t2, r2) in enumerate(kinds):
+            f1, a1 = mk(t1, r1, 7, 1)
+            f2, a2 = mk(t2, r2, 7, 2)
+            out.append(dict(k="serve", reqs=[f1, f2], oscript=[a1, a2], mode="pipe", token=(i * 15 + j) & 255, tailkind="none", tail=""))
+    return out
+
+
+def serve_cases(rng, n):
+    cases = serve_enumerated()
+    # every mode with every tail at least once, then random
+    for mode in ("seq", "pipe", "chunk"):
+        for tk in ("none", "half", "badmagic", "garbage"):
+            cases.append(gen_serve(rng, n=4, mode=mode, tail=tk))
+    for sz in (MAX_READ, 8066, 4096):
+        f = dict(magic=MAGIC, seq=sz, type=T_READ, off=sz * 512, size=sz, data="")
+        g = dict(magic=MAGIC, seq=sz, type=T_WRITE, off=0, size=1, data=bytes((i * 5) & 255 for i in range(sz)).hex())
+        cases.append(dict(k="serve", reqs=[f, g, f], mode="pipe", token=sz & 255, tailkind="none", tail="",
+                          oscript=[dict(r="ok", count=0, text="", fill=-1, delay=0), dict(r="ok", count=0, text="", fill=-1, delay=0),
+                                   dict(r="eof", count=sz - 1, text="", fill=sz - 1, delay=0)]))
+    while len(cases) < n:
+        cases.append(gen_serve(rng))
+    return cases
+
+
+def serve_proc_calls(case):
+    """(index of the processor call for each frame | None, the calls the processor must see)"""
+    idx, calls = [], []
+    for f in case["reqs"]:
+        if f["type"] not in HANDLED:
+            idx.append(None)
+            continue
+        idx.append(len(calls))
+        nm = TYPE_NAME[f["type"]]
+        if nm == "read":
+            calls.append(dict(op="read", off=f["off"], len=f["size"]))
+        elif nm == "write":
+            calls.append(dict(op="write", off=f["off"], len=len(f["data"]) // 2, data=f["data"]))
+        elif nm == "unmap":
+            calls.append(dict(op="unmap", off=f["off"], len=f["size"]))
+        else:
+            calls.append(dict(op=nm, off=0, len=0))
+    return idx, calls
+
+
+def serve_wire(case):
+    """the case as harness/cmd/rpc reads it"""
+    idx, _ = serve_proc_calls(case)
+    proc = [dict(r=a["r"], count=a["count"], text=a["text"], fill=a["fill"], delay=a["delay"])
+            for a, k in zip(case["oscript"], idx) if k is not None]
+    return dict(id=case["id"], k="serve", frames=[msg_bytes(f).hex() for f in case["reqs"]], tail=case["tail"],
+                mode=case["mode"], chunk=case.get("chunk", 0), token=case["token"], proc=proc)
+
+
+def outcome_term(case, i, k):
+    f, a = case["reqs"][i], case["oscript"][i]
+    data = b""
+    if f["type"] == T_READ and k is not None:
+        n = f["size"] if a["fill"] < 0 else a["fill"]
+        data = spattern(f["off"], case["token"], k, n)
+    if a["r"] == "ok":
+        return "OOk %s" % bl(data)
+    if a["r"] == "eof":
+        return "OEof %s %s" % (zt(a["count"]), bl(data))
+    return "OErr %s" % bl(a["text"].encode())
+
+
+def scase_term(case, out):
+    idx, _ = serve_proc_calls(case)
+    inp = b"".join(msg_bytes(f) for f in case["reqs"]) + bytes.fromhex(case["tail"])
+    return "mksv %s [%s] [%s] [%s]" % (
+        bl(inp), ";".join(msg_term(f) for f in case["reqs"]),
+        ";".join(outcome_term(case, i, idx[i]) for i in range(len(case["reqs"]))),
+        ";".join(msg_term(m) for m in out.get("replies") or []))
+
+
+SERVE_CLAUSES = {1: "Seq is not the request's", 2: "magic", 4: "type", 8: "Size", 16: "payload", 32: "reply missing",
+                 64: "reply without request", 128: "reply where the runtime stops"}
+
+
+def clause_names(mask):
+    return [v for k, v in sorted(SERVE_CLAUSES.items()) if mask & k]
+
+
 # --------------------------------------------------------------------------- Coq terms
 
 def zt(v):
@@ -429,21 +659,35 @@ def lcase_term(events, frames, comps, closed):
 # --------------------------------------------------------------------------- running
 
 def run_impl(ctx, binpath, cases, tag):
-    """stall cases run in a process with a 1 s rw timeout, the others with 4 s; both at once."""
+    """stall cases run in a process with a 1 s rw timeout, the others with 4 s, the server cases in a third one
+    (a panic of the served goroutine ends the process); all at once."""
     for i, c in enumerate(cases):
         c["id"] = i
     stall = [c for c in cases if c["k"] in ("loop", "race") and (c.get("fault") == "stall" or c["k"] == "race")]
-    rest = [c for c in cases if c not in stall]
+    serve = [serve_wire(c) for c in cases if c["k"] == "serve"]
+    rest = [c for c in cases if c not in stall and c["k"] != "serve"]
     outs = {}
 
     def go(arg):
         part, ms, t = arg
         if not part:
             return {}
-        return vlib.run_harness(ctx, binpath, part, netns=True, tag=tag + t, workers=1, extra_args=[ms, 64], timeout=3000)
+        if t != "v":
+            return vlib.run_harness(ctx, binpath, part, netns=True, tag=tag + t, workers=1, extra_args=[ms, 64], timeout=3000)
+        try:
+            return vlib.run_harness(ctx, binpath, part, netns=True, tag=tag + t, workers=2, extra_args=[ms, 64], timeout=600)
+        except RuntimeError as e:
+            # find the case(s) on which the process dies
+            res = {}
+            for c in part:
+                try:
+                    res.update(vlib.run_harness(ctx, binpath, [c], netns=True, tag=tag + "v1", workers=1, extra_args=[ms, 1], timeout=120))
+                except RuntimeError as e1:
+                    res[c["id"]] = dict(id=c["id"], k="serve", died=str(e1)[-1500:])
+            return res
 
-    with cf.ThreadPoolExecutor(max_workers=2) as ex:
-        for r in ex.map(go, [(stall, STALL_MS, "s"), (rest, FAULT_MS, "f")]):
+    with cf.ThreadPoolExecutor(max_workers=3) as ex:
+        for r in ex.map(go, [(stall, STALL_MS, "s"), (rest, FAULT_MS, "f"), (serve, FAULT_MS, "v")]):
             outs.update(r)
     return outs
 
@@ -471,6 +715,7 @@ def evaluate(ctx, binpath, cases, tag="rpc"):
     outs = run_impl(ctx, binpath, cases, tag)
     findings = []
     w_idx, w_terms, r_idx, r_terms, l_idx, l_terms = [], [], [], [], [], []
+    s_idx, s_terms = [], []
     for i, c in enumerate(cases):
         o = outs.get(i)
         if o is None or o.get("err"):
@@ -501,6 +746,29 @@ def evaluate(ctx, binpath, cases, tag="rpc"):
                 findings.append(dict(case=i, kind="concrete", known_key=KNOWN_RACED,
                                      what="calls issued while the connection failed were released only by their own deadline",
                                      detail=dict(slow_calls=o.get("slow"), max_ms=o.get("max_ms"), total=o.get("total"))))
+        elif c["k"] == "serve":
+            if o.get("died"):
+                findings.append(dict(case=i, kind="concrete", what="the process died while rpc.Server.Handle served well-formed requests (no reply to them or to any later request)",
+                                     detail=o["died"][-600:]))
+                continue
+            # bounded terms: a server gone astray must not make the evaluation explode
+            if sum(len(m.get("data") or "") for m in (o.get("replies") or [])) // 2 > 4 * (1 << 20):
+                findings.append(dict(case=i, kind="concrete", what="replies carry more than 4 MiB of payload although no request asked for more than %d bytes" % MAX_READ,
+                                     detail=dict(replies=len(o.get("replies") or []))))
+                continue
+            _, want_calls = serve_proc_calls(c)
+            got_calls = [dict(op=x["op"], off=x["off"], len=x["len"], **({"data": x.get("data", "")} if x["op"] == "write" else {}))
+                         for x in (o.get("pcalls") or [])]
+            if got_calls != want_calls:
+                k = next((j for j in range(min(len(got_calls), len(want_calls))) if got_calls[j] != want_calls[j]), min(len(got_calls), len(want_calls)))
+                findings.append(dict(case=i, kind="drift", what="the data processor was not called with the requests' own arguments (Rpc/Server.v srv_step, handleX)",
+                                     detail=dict(call=k, want=(want_calls[k:k + 1] or ["(none)"])[0], got=(got_calls[k:k + 1] or ["(none)"])[0])))
+            want_ret = {"none": ("eof",), "half": ("eof", "unexpected-eof"), "badmagic": ("badmagic",), "garbage": ("badmagic", "unexpected-eof")}[c["tailkind"]]
+            if o.get("hret") not in want_ret or o.get("rend") != "eof":
+                findings.append(dict(case=i, kind="drift", what="the serve loop did not end as the model's does (Rpc/Server.v serve_stream)",
+                                     detail=dict(handle_returned=o.get("hret"), expected=want_ret, reply_stream_end=o.get("rend"), note=o.get("note", ""))))
+            s_idx.append(i)
+            s_terms.append(scase_term(c, o))
         elif c["k"] == "loop":
             probs = timing_problems(c, o)
             if probs:
@@ -521,7 +789,7 @@ def evaluate(ctx, binpath, cases, tag="rpc"):
             c["_events"] = ev
             l_idx.append(i)
             l_terms.append(lcase_term(ev, fr, cp, cl))
-    cov = dict(l={}, r={})
+    cov = dict(l={}, r={}, s={})
     hdr = "Open Scope N_scope.\n"
 
     def shard_eval(name, terms, queries, shard):
@@ -570,6 +838,23 @@ def evaluate(ctx, binpath, cases, tag="rpc"):
                     findings.append(dict(case=i, kind="drift", what="client differs from the model: " + diffs.get(f[1], str(f[1])), detail=""))
             for k, v in enumerate(vlib.parse_coq_list(vals[1])):
                 cov["l"][l_idx[off + k]] = v
+    if s_terms:
+        res = vlib.coq_eval_sharded(ctx, tag + "_s", IMPORTS, s_terms, lambda cs: ["bad_scases 0%%nat %s" % cs, "scoverage %s" % cs],
+                                    shard=40, max_chars=300000)
+        for off, vals in res:
+            for item in vlib.parse_coq_list(vals[0]):
+                f = vlib.flat(item)
+                i = s_idx[off + f[0]]
+                if not f[2]:
+                    findings.append(dict(case=i, kind="concrete", what="c15_server_ok fails on the replies of the implementation's rpc.Server",
+                                         detail=dict(reply_index=f[3], clauses=clause_names(f[4]),
+                                                     model_vs_impl=("replies differ from the model's" if f[1] == 1 else "same as the model" if f[1] == 0 else "generator/decoder mismatch"))))
+                elif f[1] == 9:
+                    findings.append(dict(case=i, kind="drift", what="the generator's frames are not what the model's decoder reads from the bytes (defect of the check)", detail=""))
+                else:
+                    findings.append(dict(case=i, kind="drift", what="server replies differ from the model (Rpc/Server.v srv_step / createResponse)", detail=""))
+            for k, v in enumerate(vlib.parse_coq_list(vals[1])):
+                cov["s"][s_idx[off + k]] = v
     return findings, cov, outs
 
 
@@ -634,10 +919,48 @@ def codec_candidates(case):
     return [clean(c) for c in out]
 
 
+def serve_candidates(case):
+    out = []
+    n = len(case["reqs"])
+    base = dict(case)
+    if case["tail"]:
+        out.append(dict(base, tail="", tailkind="none"))
+    if case["mode"] != "seq":
+        out.append(dict(base, mode="seq"))
+    if n > 1:
+        out.append(dict(base, reqs=case["reqs"][:n // 2], oscript=case["oscript"][:n // 2]))
+        out.append(dict(base, reqs=case["reqs"][n // 2:], oscript=case["oscript"][n // 2:]))
+        for i in range(min(n, 24)):
+            out.append(dict(base, reqs=case["reqs"][:i] + case["reqs"][i + 1:], oscript=case["oscript"][:i] + case["oscript"][i + 1:]))
+    if any(a["delay"] for a in case["oscript"]):
+        out.append(dict(base, oscript=[dict(a, delay=0) for a in case["oscript"]]))
+    for i, f in enumerate(case["reqs"][:8]):
+        d = bytes.fromhex(f["data"])
+        if len(d) > 2:
+            g = dict(f, data=d[:2].hex())
+            if f["type"] == T_WRITE and f["size"] == len(d):
+                g["size"] = 2
+            a = dict(case["oscript"][i])
+            a["count"] = min(a["count"], 1) if f["type"] == T_WRITE else a["count"]
+            out.append(dict(base, reqs=case["reqs"][:i] + [g] + case["reqs"][i + 1:], oscript=case["oscript"][:i] + [a] + case["oscript"][i + 1:]))
+        if f["type"] == T_READ and f["size"] > 4:
+            g = dict(f, size=4)
+            a = dict(case["oscript"][i])
+            a["count"] = min(a["count"], 4)
+            a["fill"] = min(a["fill"], 4)
+            out.append(dict(base, reqs=case["reqs"][:i] + [g] + case["reqs"][i + 1:], oscript=case["oscript"][:i] + [a] + case["oscript"][i + 1:]))
+        if f["off"] not in (0, 4096):
+            out.append(dict(base, reqs=case["reqs"][:i] + [dict(f, off=4096)] + case["reqs"][i + 1:]))
+    return [clean(c) for c in out]
+
+
 def shrink(ctx, binpath, case, kind, rounds=5, what=None):
     cur = clean(case)
+    if cur["k"] == "serve":
+        rounds = 12
     for r in range(rounds):
-        cands = loop_candidates(cur) if cur["k"] == "loop" else codec_candidates(cur) if cur["k"] in ("write", "read") else []
+        cands = (loop_candidates(cur) if cur["k"] == "loop" else codec_candidates(cur) if cur["k"] in ("write", "read")
+                 else serve_candidates(cur) if cur["k"] == "serve" else [])
         if not cands:
             break
         cands = cands[:40]
